@@ -10,6 +10,9 @@ Record case := mkCase {
   c_rt : Z;
   c_names : list (string * bool);    (* compat.IsValidLabelName for every name of the case *)
   c_values : list (string * bool);   (* model.LabelValue.IsValid for every value of the case *)
+  c_routes : list (list (string * string) * list string);
+    (* receivers of the configured routing tree per label set of the case (C07's subject; here a table written by
+       the harness's own reference of the tree); label sets not listed go to the single receiver "default" *)
   c_hist : list (Z * op * out) }.
 
 Fixpoint tbl (t : list (string * bool)) (s : string) : bool :=
@@ -19,8 +22,14 @@ Fixpoint tbl (t : list (string * bool)) (s : string) : bool :=
   end.
 
 (* single-route configuration: every alert goes to receiver "default"; no silences, no inhibition rules *)
+Fixpoint rtbl (t : list (list (string * string) * list string)) (ls : list (string * string)) : list string :=
+  match t with
+  | [] => ["default"]
+  | (k, r) :: rest => if beq k ls then r else rtbl rest ls
+  end.
+
 Definition env_of (c : case) : env :=
-  mkEnv (tbl (c_names c)) (tbl (c_values c)) (c_rt c) (fun _ => ["default"]) (fun _ => "active").
+  mkEnv (tbl (c_names c)) (tbl (c_values c)) (c_rt c) (rtbl (c_routes c)) (fun _ => "active").
 
 Definition model_outs (c : case) : list out := snd (run (env_of c) ∅ (map fst (c_hist c))).
 Definition show_case := model_outs.
